@@ -427,13 +427,17 @@ func build(tier string) []*vkit.Scenario {
 func main() {
 	vkit.Main(&vkit.Spec{
 		Property: "C10", Level: "model_checking",
-		Rule: "one scenario = epoll mode x server executor (inline, goroutine-per-call, default task pool) x request history per connection (1-3 requests, HTTP/1.0 and 1.1, Connection absent/close/keep-alive, with and without body, pipelined or split at an offset, one or two connections) x response size (10 B, 70000 B) x socket capacity (unbounded, 4096 B); every interleaving of clients, poller, executor threads and drains within the preemption bound on the real nbhttp + nbio code; non-trivial = at least one response was produced",
+		Rule: "one scenario = epoll mode x server executor (inline, goroutine-per-call, default task pool) x request history per connection (1-3 requests, HTTP/1.0 and 1.1, Connection absent/close/keep-alive, with and without body, pipelined or split at an offset, one or two connections) x response size (10 B, 70000 B) x socket capacity (unbounded, 4096 B); every interleaving of clients, poller, executor threads and drains within the preemption bound on the real nbhttp + nbio code; non-trivial = at least one response was produced. SECOND PART (scenario name \"blocking-modes/real-sockets/history-enumeration\", a different and weaker kind of claim): bounded-exhaustive enumeration of HISTORIES, free-running schedule - one case = I/O mode (IOModBlocking, IOModMixed with MaxBlockingOnline 1, IOModMixed with every connection of the history in the poller half, IOModNonBlocking as control) x server-side socket send buffer (default, 4096 B when the history has a 70000-byte response) x every event sequence of length <= 4 (thorough: 5) on <= 2 real AF_UNIX socket-pair connections over {open, GET keep-alive, GET HTTP/1.0, GET Connection: close, 70000-byte response keep-alive / close, POST, two pipelined keep-alive GETs, keep-alive GET + closing GET pipelined, request head with the body withheld, the withheld body, peer close}; each case is executed ONCE on the real code with real goroutines and the real kernel, schedules are not enumerated",
 		Assumptions: []string{
 			"covered: IOModNonBlocking, plain text, all three epoll modes. NOT covered by this technique: IOModBlocking / IOModMixed data paths and TLS (they need real *net.TCPConn / llib TLS on real synchronisation, invisible to the cooperative scheduler); their upper layers (parser, processor, response, job queue) are the same code explored here and in C05-C09",
 			"the connection-close decision is judged on the restricted forms only (HTTP/1.0 without keep-alive, 'Connection: close'); token lists are C07's subject",
 			"independent client parser: net/http ReadResponse",
+			"second part (blocking / mixed modes on real sockets): EVERY HISTORY up to the depth is run, NOT every schedule. Oracle per connection: one response per request, in request order, with the request's own tag and the full body (net/http ReadResponse), the handler ran exactly once per answered request, nothing tagged for another connection, end of stream after a closing request and no end of stream after keep-alive requests (an end of stream that is read is a fact; 'still open' is never inferred from a timeout), no error in nbio's log. A response that has not arrived after 30 s on an open, otherwise idle connection counts as missing. Signatures of connections served by a reader goroutine carry 'io=blocking'; connections served by the poller reuse the signatures of the scheduled part",
+			"second part, IOModMixed: which half serves a connection is judged against the rule documented at IOModMixed / lmux (blocking half while fewer than MaxBlockingOnline connections are online there, poller otherwise); the listener mux's counter is read through a hook accessor at quiet points (it is the `decrease` accounting). The property statement only names the mixed mode; without this a mixed engine that serves everything from one half would pass silently",
 		},
 		UsesSimulatedKernel: true,
 		Build:               build, QuickBudget: 25 * time.Second, ThoroughBudget: 15 * time.Minute, MinNonTrivial: 50,
+		Seq: seqBlocking, ReplaySeq: replayBlocking,
+		Extra: map[string]interface{}{"second_part_blocking_modes": "bounded-exhaustive enumeration of histories on real socket pairs with a free-running schedule (every history up to the depth executed once; schedules not enumerated); counters histories_mode_*, histories_depth_*, backpressure_engaged, waits_that_hit_the_cap belong to it"},
 	})
 }
